@@ -9,6 +9,8 @@ size_t g_cap; unsigned g_usize; long *g_ev; int *g_idx; node_handle *g_down; uns
 unsigned g_init_calls; node_handle g_init_arg;
 /* ghost result: chosen index per level, remaining index after the last choice */
 unsigned g_choices; long g_remaining;
+/* level of the node the descent currently holds (0 for a terminal); levels it passed without a node */
+int g_cur_level; unsigned g_skips;
 
 struct forest *forest__getForestWithID(unsigned id) __CPROVER_requires(1) __CPROVER_assigns() __CPROVER_ensures(__CPROVER_return_value == g_fp);
 _Bool forest__isIndexSet(const struct forest *f) __CPROVER_requires(f != NULL) __CPROVER_assigns() __CPROVER_ensures(__CPROVER_return_value == g_is_index_set);
@@ -25,17 +27,24 @@ __CPROVER_requires(u == g_U)
 REQUIRES(only_real_nodes_are_unpacked, p >= 1)
 __CPROVER_assigns(g_usize, g_ulevel, g_init_calls, g_init_arg, __CPROVER_object_whole(g_ev), __CPROVER_object_whole(g_idx), __CPROVER_object_whole(g_down))
 __CPROVER_ensures(1 <= g_usize && g_usize <= g_cap && g_init_calls == __CPROVER_old(g_init_calls) + 1 && g_init_arg == p)
-__CPROVER_ensures(g_ulevel == g_nvars - __CPROVER_old(g_init_calls))        /* index sets do not skip levels */
+__CPROVER_ensures(g_cur_level >= 1 && g_ulevel == (unsigned)g_cur_level)      /* the scratch node is at the level of the node unpacked */
 ;
+/* forest::getNodeLevel(p): the level of the node the descent holds (0 for terminals) */
+int forest__getNodeLevel(const struct forest *f, node_handle p) __CPROVER_requires(f != NULL) __CPROVER_assigns() __CPROVER_ensures(__CPROVER_return_value == g_cur_level);
 unsigned unpacked_node__getSize(const struct unpacked_node *u) __CPROVER_requires(u == g_U) __CPROVER_assigns() __CPROVER_ensures(__CPROVER_return_value == g_usize);
 long unpacked_node__edgeval_as_long(const struct unpacked_node *u, unsigned z)
 __CPROVER_requires(u == g_U)
 REQUIRES(offset_position_in_bounds, z < g_usize)
-__CPROVER_assigns() __CPROVER_ensures(__CPROVER_return_value == g_ev[z]);
+__CPROVER_assigns() __CPROVER_ensures(__CPROVER_return_value == g_ev[z])
+#ifdef IX_INT_EV
+__CPROVER_ensures(-2147483648L <= __CPROVER_return_value && __CPROVER_return_value <= 2147483647L)     /* getElemInt serves forests whose edge values are ints */
+#endif
+;
 node_handle unpacked_node__down(const struct unpacked_node *u, unsigned z)
 __CPROVER_requires(u == g_U)
 REQUIRES(child_position_in_bounds, z < g_usize)
-__CPROVER_assigns() __CPROVER_ensures(__CPROVER_return_value == g_down[z] && (g_ulevel <= 1 || __CPROVER_return_value >= 1));
+/* children lie strictly below their parent (C02, assumed here); a fully reduced index set MAY skip levels (a variable with a single value): the child's level is any lower one */
+__CPROVER_assigns(g_cur_level) __CPROVER_ensures(__CPROVER_return_value == g_down[z] && 0 <= g_cur_level && (unsigned)g_cur_level < g_ulevel && ((__CPROVER_return_value >= 1) == (g_cur_level >= 1)));
 
 /* ghost call standing for "m.from(k) = U->index(zmax);": its precondition is the postcondition of the backward search */
 void verif_choose_child(struct minterm *m, unsigned k, struct unpacked_node *u, unsigned zmax, long index)
@@ -48,23 +57,31 @@ __CPROVER_assigns(g_choices, g_remaining)
 __CPROVER_ensures(g_choices == __CPROVER_old(g_choices) + 1 && g_remaining == index - g_ev[zmax])
 ;
 #define VERIF_CHOOSE_CHILD(m, k, U, zmax, index) verif_choose_child(&(m), k, U, zmax, index)
+/* ghost call standing for "m.from(k) = 0;": a level without a node of the index set (the node held lies below it) */
+void verif_skip_level(struct minterm *m, unsigned k)
+REQUIRES(a_level_is_skipped_only_above_the_node_held, g_cur_level >= 0 && (unsigned)g_cur_level < k)
+__CPROVER_assigns(g_skips)
+__CPROVER_ensures(g_skips == __CPROVER_old(g_skips) + 1)
+;
+#define VERIF_SKIP_LEVEL(m, k) verif_skip_level(&(m), k)
 
 #define GETELEM_CONTRACT(fn) \
 _Bool fn(const struct dd_edge *self, long index, struct minterm *m) \
 __CPROVER_requires(__CPROVER_is_fresh(self, sizeof(*self)) && __CPROVER_is_fresh(m, 1)) \
 __CPROVER_requires(g_fp == NULL || g_U != NULL) \
-/* an index set over >= 1 variables is the empty set (root OMEGA_INFINITY = 0) or has a node as root: no level is skipped */ \
-__CPROVER_requires(self->node >= 0) \
-__CPROVER_requires(g_nvars >= 1 && g_nvars <= 1000 && g_init_calls == 0 && g_choices == 0) \
+/* the root is the empty set (OMEGA_INFINITY = 0), a terminal (every variable has one value) or a node at some level <= the number of variables */ \
+__CPROVER_requires(0 <= g_cur_level && (unsigned)g_cur_level <= g_nvars && ((self->node >= 1) == (g_cur_level >= 1))) \
+__CPROVER_requires(g_nvars >= 1 && g_nvars <= 1000 && g_init_calls == 0 && g_choices == 0 && g_skips == 0) \
 __CPROVER_requires(verif_exc == 0) \
-__CPROVER_assigns(verif_exc, g_usize, g_ulevel, g_init_calls, g_init_arg, g_choices, g_remaining, __CPROVER_object_whole(g_ev), __CPROVER_object_whole(g_idx), __CPROVER_object_whole(g_down)) \
+__CPROVER_assigns(verif_exc, g_usize, g_ulevel, g_init_calls, g_init_arg, g_choices, g_remaining, g_cur_level, g_skips, __CPROVER_object_whole(g_ev), __CPROVER_object_whole(g_idx), __CPROVER_object_whole(g_down)) \
 ENSURES(detached_edge_rejected, (g_fp == NULL) ==> verif_exc == ERR_FOREST_MISMATCH) \
 ENSURES(not_an_index_set_rejected, (g_fp != NULL && !g_is_index_set) ==> verif_exc == ERR_INVALID_OPERATION) \
 ENSURES(other_domain_rejected, (g_fp != NULL && g_is_index_set && g_fdom != g_mdom) ==> verif_exc == ERR_DOMAIN_MISMATCH) \
 ENSURES(accepted_otherwise, (g_fp != NULL && g_is_index_set && g_fdom == g_mdom && !g_f_rel && !g_m_rel) ==> verif_exc == 0) \
 ENSURES(negative_index_fails, (verif_exc == 0 && index < 0) ==> (__CPROVER_return_value == 0 && g_init_calls == 0)) \
 ENSURES(empty_set_has_no_elements, (verif_exc == 0 && self->node == 0) ==> (__CPROVER_return_value == 0 && g_init_calls == 0)) \
-ENSURES(one_choice_per_level, (verif_exc == 0 && index >= 0 && self->node >= 1) ==> (g_choices == g_nvars && g_init_calls == g_nvars)) \
+ENSURES(one_choice_per_level, (verif_exc == 0 && index >= 0 && self->node != 0) ==> (g_choices + g_skips == g_nvars && g_init_calls == g_choices)) \
+ENSURES(a_node_root_is_unpacked, (verif_exc == 0 && index >= 0 && self->node >= 1) ==> g_choices >= 1) \
 ENSURES(found_iff_index_exhausted, (verif_exc == 0 && index >= 0 && self->node >= 1) ==> (__CPROVER_return_value == (g_remaining <= 0)))
 
 GETELEM_CONTRACT(dd_edge__getElemLong);
